@@ -140,6 +140,9 @@ pub fn script_error_kind(e: &ScriptError) -> String {
         ScriptError::InvalidQuotesLocation(_) => "InvalidQuotesLocation".to_string(),
         ScriptError::EmptyLabel(_) => "EmptyLabel".to_string(),
         ScriptError::UnknownPreProcessorCommand(_) => "UnknownPreProcessorCommand".to_string(),
+        // a variant added upstream must not stop the harness from building: it is reported as its own kind
+        #[allow(unreachable_patterns)]
+        _ => "OtherKind".to_string(),
     }
 }
 
